@@ -235,7 +235,7 @@ package schema
 // lexer returns forever once the scan has ended - and every loop turns that item into
 // p.fatal. Hence the loop variant "p.fatal ? 0 : pm(p) + 1".
 
-//@ spec wfp(p *parser) bool = p != nil && p.lexer != nil && wf(p.lexer) && pending(p.lexer) == 0 && rank(p.lexer.state) != 1 && (p.lookahead != nil ==> p.lookahead.Start >= 0 && p.lookahead.Start <= p.lookahead.End)
+//@ spec wfp(p *parser) bool = p != nil && p.lexer != nil && wf(p.lexer) && pending(p.lexer) == 0 && rank(p.lexer.state) != 1 && (p.lookahead != nil ==> p.lookahead.Start >= 0 && p.lookahead.Start <= p.lookahead.End) && (forall k in 0..len(p.checks) :: p.checks[k] != nil)
 //@ spec pm(p *parser) int = 2 * lm(p.lexer) + ((p.lookahead != nil && !isbroken(*p.lookahead)) ? 1 : 0)
 
 //@ func Lex
@@ -261,11 +261,12 @@ package schema
 //@   ensures[C12] never-raises-the-measure: pm(p) <= old(pm(p))
 
 //@ func (*parser).addErr
-//@   props C12
+//@   props C11 C12
 //@   noframe
 //@   requires p != nil
 //@   modifies p.errors
 //@   ensures len(p.errors) == old(len(p.errors)) + 1
+//@   ensures[C11] error-carries-the-token: lasterrat(p, item)
 
 //@ func (*parser).addFatal
 //@   props C12
@@ -275,10 +276,12 @@ package schema
 //@   ensures p.fatal
 
 //@ func (*parser).addCheck
-//@   props C12
+//@   props C11 C12
 //@   noframe
-//@   requires p != nil
+//@   requires p != nil && check != nil
 //@   modifies p.checks
+//@   ensures[C11] registered: len(p.checks) == old(len(p.checks)) + 1 && p.checks[len(p.checks) - 1] == check
+//@   ensures forall k in 0..old(len(p.checks)) :: p.checks[k] == old(p.checks[k])
 
 // what every parse step guarantees: the parser stays well-formed and the measure does not grow
 //@ spec step(p *parser) bool = wfp(p)
@@ -348,6 +351,9 @@ package schema
 
 //@ func (*parser).parseComputedSubjectSet
 //@   props C12
+//@   props C11
+//@   callsite checkCurrentNamespaceHasRelation requires[C11] checks-the-referenced-relation: $arg1 == relation
+//@   ensures[C11] reference-is-registered: !isnil(rewrite) ==> len(p.checks) == old(len(p.checks)) + 1
 //@   noframe
 //@   requires wfp(p)
 //@   modifies p.lookahead, p.fatal, p.errors, p.checks, p.lexer.pos, p.lexer.width, p.lexer.start, p.lexer.state, chanstate(p.lexer.items)
@@ -355,6 +361,10 @@ package schema
 
 //@ func (*parser).parseTupleToSubjectSet
 //@   props C12
+//@   props C11
+//@   callsite checkAllRelationsTypesHaveRelation requires[C11] checks-the-traversed-relation-against-the-called-one: $arg1 == relation && $arg2 == subjectSetRel
+//@   callsite checkCurrentNamespaceHasRelation requires[C11] checks-the-referenced-relation: $arg1 == relation
+//@   ensures[C11] references-are-registered: !isnil(rewrite) ==> len(p.checks) == old(len(p.checks)) + 2
 //@   noframe
 //@   requires wfp(p)
 //@   modifies p.lookahead, p.fatal, p.errors, p.checks, p.lexer.pos, p.lexer.width, p.lexer.start, p.lexer.state, chanstate(p.lexer.items)
@@ -362,6 +372,8 @@ package schema
 
 //@ func (*parser).parsePermissionExpression
 //@   props C12
+//@   props C11
+//@   callsite checkCurrentNamespaceHasRelation requires[C11] checks-the-called-permission: $arg1 == name
 //@   noframe
 //@   requires wfp(p)
 //@   modifies p.lookahead, p.fatal, p.errors, p.checks, p.lexer.pos, p.lexer.width, p.lexer.start, p.lexer.state, chanstate(p.lexer.items)
@@ -389,6 +401,9 @@ package schema
 
 //@ func (*parser).matchSubjectSet
 //@   props C12
+//@   props C11
+//@   callsite checkNamespaceHasRelation requires[C11] checks-the-parsed-pair: $arg0 == namespace && $arg1 == relation
+//@   ensures[C11] reference-is-registered: len(p.checks) == old(len(p.checks)) + 1 && result.Namespace == namespace.Val && result.Relation == relation.Val
 //@   noframe
 //@   requires wfp(p)
 //@   modifies p.lookahead, p.fatal, p.errors, p.checks, p.lexer.pos, p.lexer.width, p.lexer.start, p.lexer.state, chanstate(p.lexer.items)
@@ -396,6 +411,8 @@ package schema
 
 //@ func (*parser).parseTypeUnion
 //@   props C12
+//@   props C11
+//@   callsite checkNamespaceExists requires[C11] checks-the-named-type: $arg0 == identifier
 //@   noframe
 //@   requires wfp(p)
 //@   modifies p.lookahead, p.fatal, p.errors, p.checks, p.lexer.pos, p.lexer.width, p.lexer.start, p.lexer.state, chanstate(p.lexer.items)
@@ -405,6 +422,8 @@ package schema
 
 //@ func (*parser).parseRelated
 //@   props C12
+//@   props C11
+//@   callsite checkNamespaceExists requires[C11] checks-the-named-type: $arg0 == item
 //@   noframe
 //@   requires wfp(p)
 //@   modifies p.lookahead, p.fatal, p.errors, p.checks, p.namespace, p.lexer.pos, p.lexer.width, p.lexer.start, p.lexer.state, chanstate(p.lexer.items)
@@ -430,11 +449,99 @@ package schema
 //@   loop 1 invariant wfp(p) && p.lexer == old(p.lexer) && pm(p) <= old(pm(p)) && (old(p.fatal) ==> p.fatal)
 //@   loop 1 decreases[C12] p.fatal ? 0 : pm(p) + 1
 
-// the deferred type checks run after parsing; their cost and meaning belong to C11/C12 (type-check recursion)
+// ---- C11: the deferred type checks. A reference is "declared" when some namespace of that
+// name (declares a relation of that name). Every check: a reference that is not declared adds
+// exactly one error, carried by the offending token; a check that adds no error implies the
+// reference is declared. checksRun counts the checks that have run (ghost), so that
+// typeCheck provably runs every registered check.
+//@ spec hasns(ns []namespace, name string) bool = exists i in 0..len(ns) :: ns[i].Name == name
+//@ spec hasrelin(rs []ast.Relation, rel string) bool = exists j in 0..len(rs) :: rs[j].Name == rel
+//@ spec hasrel(ns []namespace, name string, rel string) bool = exists i in 0..len(ns) :: ns[i].Name == name && hasrelin(ns[i].Relations, rel)
+//@ spec lasterrat(p *parser, it item) bool = len(p.errors) >= 1 && p.errors[len(p.errors) - 1] != nil && p.errors[len(p.errors) - 1].item.Start == it.Start && p.errors[len(p.errors) - 1].item.End == it.End && p.errors[len(p.errors) - 1].item.Val == it.Val
+//@ ghostvar checksRun int
+
+//@ func (namespaceQuery).find
+//@   props C11 C13
+//@   modifies nothing
+//@   ensures[C11] found-is-declared: result1 ==> result0 != nil && result0.Name == name && (exists i in 0..len(ns) :: ns[i].Name == name && result0.Relations == ns[i].Relations)
+//@   ensures[C11] not-found-is-undeclared: !result1 ==> forall i in 0..len(ns) :: ns[i].Name != name
+//@   loop 1 invariant forall i in 0..$n :: ns[i].Name != name
+
+//@ func (relationQuery).find
+//@   props C11 C13
+//@   modifies nothing
+//@   ensures[C11] found-is-declared: result1 ==> result0 != nil && result0.Name == name && (exists j in 0..len(rs) :: rs[j].Name == name && result0.Types == rs[j].Types)
+//@   ensures[C11] not-found-is-undeclared: !result1 ==> forall j in 0..len(rs) :: rs[j].Name != name
+//@   loop 1 invariant forall j in 0..$n :: rs[j].Name != name
+
+//@ func (namespaceQuery).findRelation
+//@   props C11 C13
+//@   modifies nothing
+//@   ensures[C11] found-is-declared: result1 ==> result0 != nil && result0.Name == relation && (exists i in 0..len(ns) :: ns[i].Name == namespace && (exists j in 0..len(ns[i].Relations) :: ns[i].Relations[j].Name == relation && result0.Types == ns[i].Relations[j].Types))
+
+//@ func functype::schema.typeCheck
+//@   requires arg0 != nil
+//@   modifies arg0.errors, checksRun
+//@   ensures len(arg0.errors) >= old(len(arg0.errors)) && checksRun == old(checksRun) + 1
+
 //@ func (*parser).typeCheck
-//@   trusted
+//@   props C11 C13
+//@   noframe
+//@   requires p != nil && (forall k in 0..len(p.checks) :: p.checks[k] != nil)
+//@   modifies p.errors, checksRun
+//@   ensures p.checks == old(p.checks) && p.namespaces == old(p.namespaces)
+//@   ensures[C11] every-registered-check-runs: checksRun == old(checksRun) + len(p.checks)
+//@   ensures[C11] errors-are-kept: len(p.errors) >= old(len(p.errors))
+//@   loop 1 invariant checksRun == old(checksRun) + $n && len(p.errors) >= old(len(p.errors)) && p != nil
+
+//@ func checkNamespaceExists$1
+//@   props C11 C13
+//@   like functype::schema.typeCheck
+//@   noframe
+//@   ghost-at-return checksRun := checksRun + 1
+//@   ensures[C11] undeclared-is-rejected-at-its-token: !hasns(p.namespaces, namespace.Val) ==> len(p.errors) == old(len(p.errors)) + 1 && lasterrat(p, namespace)
+//@   ensures[C11] accepted-means-declared: len(p.errors) == old(len(p.errors)) ==> hasns(p.namespaces, namespace.Val)
+
+//@ func checkNamespaceHasRelation$1
+//@   props C11 C13
+//@   like functype::schema.typeCheck
+//@   noframe
+//@   ghost-at-return checksRun := checksRun + 1
+//@   ensures[C11] undeclared-namespace-is-rejected-at-its-token: !hasns(p.namespaces, namespace.Val) ==> len(p.errors) == old(len(p.errors)) + 1 && lasterrat(p, namespace)
+//@   ensures[C11] undeclared-relation-is-rejected-at-its-token: (hasns(p.namespaces, namespace.Val) && !hasrel(p.namespaces, namespace.Val, relation.Val)) ==> len(p.errors) == old(len(p.errors)) + 1 && lasterrat(p, relation)
+//@   ensures[C11] accepted-means-declared: len(p.errors) == old(len(p.errors)) ==> hasrel(p.namespaces, namespace.Val, relation.Val)
+
+//@ func checkCurrentNamespaceHasRelation$1
+//@   props C11 C13
+//@   like functype::schema.typeCheck
+//@   noframe
+//@   ghost-at-return checksRun := checksRun + 1
+//@   ensures[C11] undeclared-is-rejected-at-its-token: !hasrel(p.namespaces, namespace, relation.Val) ==> len(p.errors) == old(len(p.errors)) + 1 && lasterrat(p, relation)
+//@   ensures[C11] accepted-means-declared: len(p.errors) == old(len(p.errors)) ==> hasrel(p.namespaces, namespace, relation.Val)
+
+// traverse: `this.related.R.traverse(x => x.permits.P(ctx))`. At check time the engine looks up
+// P in the namespace of every subject it finds under R - for a SubjectSet<T, r> typed entry
+// that is T itself (internal/check/rewrites.go checkTupleToSubjectSet ignores r). So an
+// accepted traverse needs: every type of R names a namespace that declares P.
+//@ spec typesdeclare(ns []namespace, ts []ast.RelationType, rel string) bool = forall k in 0..len(ts) :: hasrel(ns, ts[k].Namespace, rel)
+//@ func recursiveCheckAllRelationsTypesHaveRelation
+//@   props C11 C13
+//@   noframe
 //@   requires p != nil
 //@   modifies p.errors
+//@   decreases depth + 1
+//@   ensures len(p.errors) >= old(len(p.errors))
+//@   ensures[C11] undeclared-relation-is-rejected-at-its-token: !hasrel(p.namespaces, namespace, relationType) ==> len(p.errors) == old(len(p.errors)) + 1 && lasterrat(p, item)
+//@   ensures[C11] accepted-means-engine-lookup-succeeds: len(p.errors) == old(len(p.errors)) ==> ok && r != nil && r.Name == relationType && typesdeclare(p.namespaces, r.Types, relation)
+//@   loop 1 invariant p != nil && len(p.errors) >= old(len(p.errors))
+//@   loop 1 invariant len(p.errors) == old(len(p.errors)) ==> forall k in 0..$n :: hasrel(p.namespaces, r.Types[k].Namespace, relation)
+
+//@ func checkAllRelationsTypesHaveRelation$1
+//@   props C11 C13
+//@   like functype::schema.typeCheck
+//@   noframe
+//@   ghost-at-return checksRun := checksRun + 1
+//@   ensures[C11] undeclared-relation-is-rejected-at-its-token: !hasrel(p.namespaces, namespace, relationType.Val) ==> len(p.errors) == old(len(p.errors)) + 1 && lasterrat(p, relationType)
 
 //@ func (*parser).parse
 //@   props C12
